@@ -811,7 +811,7 @@ def ext_yaml(defs: list[dict]) -> tuple[str, list[dict]]:
     for d in defs:
         lines = [f"name: {d['name']}"]
         if d.get('ns'):
-            lines.append(f"namespace: {'.'.join(d['ns'])}")
+            lines.append("namespace: [" + ", ".join(d['ns']) + "]")
         lines.append(f"primitive: {d['prim']}")
         if d.get('arity'):
             lines.append("params: [" + ", ".join("TUV"[i] for i in range(d['arity'])) + "]")
